@@ -424,6 +424,31 @@ class Fn:
         if pl["p"]:
             return {"kind": "place", "place": pl, "ty": self.locals[pl["l"]]["ty"], "str": self.place_str(pl)}
         defs = self.whole_defs(pl["l"])
+        # `a && b` / a spliced helper returning `a && b`: the bool is a constant on the short-circuit paths and one computed
+        # value otherwise (possibly behind plain copies such as `dest = move ret`).  On the outcome the constants cannot
+        # produce, the switch is a test of that one value.
+        pl_t, defs_t, hops = pl, defs, 0
+        while len(defs_t) == 1 and defs_t[0][1] != "t" and defs_t[0][2]["rv"]["k"] == "use" and hops < 4:
+            a = defs_t[0][2]["rv"]["a"]
+            p2 = (a.get("copy") or a.get("move")) if isinstance(a, dict) else None
+            if p2 is None or p2["p"] or not self.whole_defs(p2["l"]):
+                break
+            pl_t, defs_t, hops = p2, self.whole_defs(p2["l"]), hops + 1
+        if len(defs_t) > 1 and "bool" in self.locals[pl_t["l"]]["ty"]:
+            consts = [(bi, k, s) for (bi, k, s) in defs_t if k != "t" and s["rv"]["k"] == "use" and isinstance(s["rv"]["a"], dict) and s["rv"]["a"].get("int") in (0, 1)]
+            rest = [d for d in defs_t if d not in consts]
+            if consts and len(rest) == 1 and len({s["rv"]["a"]["int"] for (_b, _k, s) in consts}) == 1:
+                cval = consts[0][2]["rv"]["a"]["int"]
+                bi, k, s = rest[0]
+                inner = None
+                if k == "t":
+                    inner = {"kind": "call", "callee": norm(s.get("res") or s.get("callee")), "call": s, "block": bi}
+                elif s["rv"]["k"] == "bin":
+                    inner = {"kind": "bin", "op": s["rv"]["op"], "a": s["rv"]["a"], "b": s["rv"]["b"], "block": bi, "idx": k}
+                if inner is not None and (hops > 0 or self.locals[pl_t["l"]].get("inlined_from")):
+                    # only for values that come out of a spliced helper: source-level `&&` chains keep their old reading
+                    inner.update(threaded=True, weak_label=cval, local=pl_t["l"], defs=defs_t, name=self.local_name(pl_t["l"]))
+                    return inner
         if len(defs) != 1:
             # bool local assigned constants in several arms (matches!/&&/||)
             return {"kind": "multi", "local": pl["l"], "defs": defs, "name": self.local_name(pl["l"])}
@@ -875,6 +900,104 @@ def apply_local_roles(prog, roles):
                 fn.locals[i] = dict(fn.locals[i], name=rname, source_name=name)
                 n += 1
     return n
+
+
+# ---------------------------------------------------------------------------------------------------------------------
+# Transparency of new helper functions.  Rules are written about the bodies that existed when they were written (the keys of
+# reference/local_roles.json).  A body that did not exist then - the result of an "extract method" refactoring, or a helper a
+# change introduces - is spliced back into its callers before any rule runs, so that code moved into a helper is judged
+# exactly like the same code in place.  Only small, non-recursive, closure-free helpers are inlined; two rounds.
+
+def _remap(x, lmap, bmap, pmap):
+    """Deep copy of a MIR JSON fragment with locals / block indices / promoted indices renumbered."""
+    if isinstance(x, list):
+        return [_remap(y, lmap, bmap, pmap) for y in x]
+    if not isinstance(x, dict):
+        return x
+    if "l" in x and "p" in x and isinstance(x.get("l"), int):
+        pl = dict(x)
+        pl["l"] = lmap(x["l"])
+        pl["p"] = [(dict(e, idx=lmap(e["idx"])) if isinstance(e, dict) and isinstance(e.get("idx"), int) else e) for e in x["p"]]
+        return pl
+    out = {}
+    for k, v in x.items():
+        if k == "const" and isinstance(v, str) and "promoted[" in v:
+            out[k] = re.sub(r"promoted\[(\d+)\]", lambda m: "promoted[%d]" % pmap(int(m.group(1))), v)
+        else:
+            out[k] = _remap(v, lmap, bmap, pmap)
+    return out
+
+
+def _inline_one(caller_f, bi, callee_f):
+    cm, km = caller_f["mir"], callee_f["mir"]
+    t = cm["blocks"][bi]["t"]
+    lbase = len(cm["locals"])
+    bbase = len(cm["blocks"])
+    pbase = len(caller_f.get("promoted", []))
+    lmap = lambda l: lbase + l
+    bmap = lambda b: bbase + b
+    pmap = lambda n: pbase + n
+    caller_f.setdefault("promoted", [])
+    caller_f["promoted"] += callee_f.get("promoted", [])
+    for l in km["locals"]:
+        cm["locals"].append(dict(l, inlined_from=callee_f["id"]))
+    at = cm["blocks"][bi]["at"]
+    pre = []
+    for i, a in enumerate(t.get("args", [])):
+        if i + 1 <= km["argc"]:
+            pre.append({"lhs": {"l": lbase + i + 1, "p": []}, "rv": {"k": "use", "a": a}, "at": at})
+    for b in km["blocks"]:
+        nb = {"s": [_remap(st, lmap, bmap, pmap) for st in b["s"]], "at": b.get("at", at), "cleanup": b.get("cleanup", False)}
+        tt = b["t"]
+        if tt["k"] == "return":
+            if t.get("dest") is not None:
+                nb["s"].append({"lhs": t["dest"], "rv": {"k": "use", "a": {"move": {"l": lbase, "p": []}}}, "at": at})
+            nb["t"] = {"k": "goto", "t": t["t"]} if t.get("t") is not None else {"k": "unreachable"}
+        else:
+            nt = _remap({k: v for k, v in tt.items() if k not in ("t", "ts", "else")}, lmap, bmap, pmap)
+            if "t" in tt:
+                nt["t"] = bmap(tt["t"]) if tt["t"] is not None else None
+            if "ts" in tt:
+                nt["ts"] = [[v, bmap(x)] for v, x in tt["ts"]]
+            if "else" in tt:
+                nt["else"] = bmap(tt["else"])
+            nb["t"] = nt
+        cm["blocks"].append(nb)
+    cm["blocks"][bi]["s"] = cm["blocks"][bi]["s"] + pre
+    cm["blocks"][bi]["t"] = {"k": "goto", "t": bbase}
+
+
+def inline_new_helpers(doc, known_ids, max_blocks=24, rounds=2):
+    """doc: fact document (mutated in place).  known_ids: normalised ids of the bodies the rules know.  Returns the list of
+    (caller, helper) pairs spliced."""
+    done = []
+    byid = {norm(f["id"]): f for f in doc["fns"]}
+    new = {fid: f for fid, f in byid.items() if fid not in known_ids and "{closure" not in fid and f["at"]["file"].startswith("src/")
+           and not any(k.startswith(fid + "::{closure") for k in byid)}
+    if not new:
+        return done
+
+    def calls_of(f):
+        return [(i, norm(b["t"].get("res") or b["t"].get("callee"))) for i, b in enumerate(f["mir"]["blocks"]) if b["t"]["k"] == "call"]
+    small = {fid: f for fid, f in new.items() if len(f["mir"]["blocks"]) <= max_blocks and fid not in {c for _, c in calls_of(f)}}
+    for _ in range(rounds):
+        changed = False
+        for cid, cf in byid.items():
+            if cid in small and _ == 0:
+                pass
+            guard = 0
+            while guard < 40:
+                guard += 1
+                hit = [(i, c) for i, c in calls_of(cf) if c in small and c != cid]
+                if not hit:
+                    break
+                i, c = hit[0]
+                _inline_one(cf, i, small[c])
+                done.append((cid, c))
+                changed = True
+        if not changed:
+            break
+    return done
 
 
 class AnchorMissing(Exception):
